@@ -46,7 +46,7 @@ Proof. split; vm_compute; reflexivity. Qed.
 
 (* the law and_skips_rhs itself fails for Mech: the left operand is 0, yet the evaluation fails *)
 Lemma mech_and_law_fails :
-  let s := init_state (prog [] []) in
+  let s := state_with [] in
   ieval dev_pinned [] 1 false (ENum 0) s = (Val 0, s) /\
   ieval dev_pinned [] 3 false (EAnd (ENum 0) (EBin Div (ENum 1) (ENum 0))) s = (Fail EDiv0, s).
 Proof. split; vm_compute; reflexivity. Qed.
